@@ -121,6 +121,93 @@ def generate(rng, tier):
             "acq": {"samples": samples, "nscans": m, "elements": elements, "channels": channels, "tokens": tokens}}
 
 
+LEADS = [13, 14, 15, 16, 17, 18, 20, 24, 31, 32, 33, 34, 40, 48, 63, 64, 65, 66, 72]
+
+
+def unmarked(rng) -> str:
+    """a value written WITHOUT a decimal mark: Qtegra writes zero counts as a plain `0`, whole counts as `12`"""
+    k = rng.random()
+    if k < 0.45:
+        return "0"
+    if k < 0.75:
+        return str(rng.randint(0, 100000))
+    if k < 0.85:
+        return str(-rng.randint(1, 40))
+    if k < 0.96:
+        return rng.choice(["1e5", "1E+05", "3E-07", "-2e3", "12", "-3", "7E2"])
+    return rng.choice(["NaN", "nan"])
+
+
+def fractional(rng) -> str:
+    """a value with a decimal mark and (almost always) a fractional part"""
+    return f"{rng.uniform(0.01, 3000):.{rng.randint(1, 9)}f}"
+
+
+def generate_late(rng, tier, target=None, lead=None, combo=None, kind=None, counter_only=None, use_analog=None):
+    """an export whose first `lead` lines carry no decimal mark at all (integral values written as `0`, `12`, `-3`, `1e5`:
+    the first `lead - 2` records of the columns layout and/or the first `lead - 4` samples of the rows layout), fractional
+    values only later in the file.  `target` says which layout(s) get the unmarked leading run."""
+    target = target or rng.choice(["cols", "cols", "rows", "rows", "both"])
+    lead = lead or rng.choice(LEADS)
+    delimiter, decimal = combo or rng.choice([(",", "."), (";", "."), (";", ","), (";", ","), (";", ",")])
+    use_analog = (rng.random() < 0.3) if use_analog is None else use_analog
+    read = "Analog" if use_analog else "Counter"
+    if counter_only is None:
+        counter_only = rng.random() < 0.35
+    if counter_only:
+        channels = [read]
+    else:
+        xname = rng.choice(["X [u]", "X (u)"])
+        extra = {c for c in CHANNELS if rng.random() < 0.5} | {read}
+        channels = [xname if c == "X" else c for c in CHANNELS if c in extra]
+    C, cr = len(channels), channels.index(read)
+    R = lead - 2 if target in ("cols", "both") else 0       # records of the columns layout without a mark
+    S = lead - 4 if target in ("rows", "both") else 0       # samples of the rows layout without a mark
+    if target == "rows":
+        n, m, k = S + rng.randint(1, 3), rng.choice([2, 2, 3, 4]), rng.choice([1, 1, 2])
+    else:
+        n = S + rng.randint(1, 3) if target == "both" else rng.choice([1, 1, 2, 3])
+        k = rng.choice([1, 1, 2, 3])
+        m = max(2, (R + rng.randint(0, 6)) // (k * C) + 1)
+        while ((k - 1) * C + cr) * m + m - 1 < R:           # a record of the channel that is read lies past the run
+            m += 1
+    elements = rng.sample(LABELS, k)
+    samples = rng.sample(SAMPLES, n) if rng.random() < 0.5 and n <= len(SAMPLES) else [f"Sample {i + 1}" for i in range(n)]
+    dt, dti = rng.choice([1.0049, 0.2, 0.25, 0.50005, 0.1, 2.0]), rng.choice([1, 1, 2])
+    sparse = rng.random() < 0.4                             # most later values integral as well
+    tokens = []
+    for i in range(n):
+        per_scan = []
+        for s in range(m):
+            per_el = []
+            for e in range(k):
+                per_ch = []
+                for c, ch in enumerate(channels):
+                    run = (e * C + c) * m + s < R or i < S
+                    if ch == "Time":
+                        if run:
+                            tok = str(e + s * dti)
+                        else:
+                            tok = f"{0.2 + 0.4 * e + s * dt + rng.choice([0, 1, -1, 2, 3]) * 1e-5:.5f}".rstrip("0")
+                            tok = tok + "0" if tok.endswith(".") else tok
+                    elif run:
+                        tok = unmarked(rng)
+                    elif (i, s, e, c) == (n - 1, m - 1, k - 1, cr):
+                        tok = fractional(rng)
+                    elif sparse and rng.random() < 0.8:
+                        tok = unmarked(rng)
+                    else:
+                        tok = number(rng)
+                    per_ch.append(tok.replace(".", ",") if decimal == "," else tok)
+                per_el.append(per_ch)
+            per_scan.append(per_el)
+        tokens.append(per_scan)
+    kind = kind or rng.choice(["load", "load", "load", "readers"])
+    return {"kind": kind, "use_analog": use_analog, "delimiter": delimiter, "decimal": decimal, "bom": rng.random() < 0.5,
+            "eol": rng.choice(["\r\n", "\r\n", "\n"]), "explicit_delimiter": rng.random() < 0.4,
+            "acq": {"samples": samples, "nscans": m, "elements": elements, "channels": channels, "tokens": tokens}}
+
+
 OTHER_LINES = ["", "A,B,C", "1,2,3", "0.5\t0.25", "MainRun,1,2", "mainruns,0,31P,Counter,1", "<Identifier>", "Time,31P,153Eu", "x;y;z",
                ",,,,Sample 1,Sample 2,", "# comment", "1.0,2.0", "Main Runs"]
 
